@@ -176,7 +176,7 @@ def build(ctx):
            note="loop-free region; helper loops over the operator spelling (<= 3 chars) fully unwound: complete for all num1, num2, X")
     kb.job("range.rest", "h_range", unwind=8, defines=["CLASS_REST"], timeout=600,
            note="loop-free region; all constants, all values of the variable's type, widths 16/32/64 for int/long: complete. Complement of the recorded class")
-    kb.job("range.mixed", "h_range", kind="known", finding="K22.signed-var-vs-unsigned-const", unwind=8, defines=["CLASS_MIXED"], timeout=600, expect_fail=["h_range.assertion"],
+    kb.job("range.mixed", "h_range", kind="known", finding="K22.signed-var-vs-unsigned-const", props=["C03"], unwind=8, defines=["CLASS_MIXED"], timeout=600, expect_fail=["h_range.assertion"],
            note="recorded finding class: signed (or plain char taken as signed) variable against an unsigned constant")
     kb.job("cover", "h_cover", kind="cover", unwind=8)
     kb.assumptions += ["region interfaces: K21 (num1, num2, operator spelling, bit operator spelling, unsignedness flag); K22 (types/signs of both operands, platform widths, constant, operator, side)",
